@@ -241,7 +241,7 @@ fn child_race(args: &Args) {
         // oracle: every span closed exactly once per layer, children before parents, no layer error
         let entries = std::mem::take(&mut *log.entries.lock().unwrap());
         let errs = std::mem::take(&mut *log.errors.lock().unwrap());
-        let closes: Vec<(u8, u64)> = entries.iter().filter_map(|e| if let interp::LEv::Close { layer, serial } = e { Some((*layer, *serial)) } else { None }).collect();
+        let closes: Vec<(u8, u64)> = entries.iter().filter_map(|e| if let interp::LEv::Close { layer, serial, .. } = e { Some((*layer, *serial)) } else { None }).collect();
         let mut problem: Option<String> = errs.first().map(|(_, e)| e.clone());
         for serial in 1..=nsp as u64 {
             for layer in 0..2u8 {
